@@ -122,8 +122,8 @@ func body(pkg, fn string, id int) string {
 
 func gen(items []item, out string) {
 	type rec struct {
-		ID    int    `json:"id"`
-		Pkg   string `json:"pkg"`
+		ID    int      `json:"id"`
+		Pkg   string   `json:"pkg"`
 		Files []string `json:"files"`
 	}
 	var index []rec
